@@ -273,6 +273,29 @@ func genFaultGrid(p func(string, ...any)) {
 	outcomes := []string{"T:-7:1", "F:-7:err", "F:-7:empty"}
 	vout := []string{"T:-7:1", "F:-7:err", "T:-7:2", "F:-7:ok"}
 	hd := "H(-;{i64:1=a:-7};-;{})"
+	// a signer that returns bytes together with its error (not through Countersign0, which is
+	// documented to return what the signer returns)
+	for _, tag := range []string{"t", "u"} {
+		p("s1 %s S1(%s;00;-) - F:-7:errb F:-7:ok a", tag, hd)
+		p("s1h %s %s 00 - F:-7:errb", tag, hd)
+	}
+	p("cs full s1 p val:S1(%s;00;0102) %s - F:-7:errb F:-7:ok", hd, hd)
+	p("he H(-;{};-;{}) -16 %s - - F:-7:errb F:-7:ok", strings.Repeat("00", 32))
+	for n := 1; n <= 3; n++ {
+		for pos := 0; pos < n; pos++ {
+			ss, sigs, vs := []string{}, []string{}, []string{}
+			for i := 0; i < n; i++ {
+				if i == pos {
+					ss = append(ss, "F:-7:errb")
+				} else {
+					ss = append(ss, "T:-7:1")
+				}
+				sigs = append(sigs, "cs("+hd+";-)")
+				vs = append(vs, "F:-7:ok")
+			}
+			p("sm SM(%s;00;[%s]) - [%s] [%s] a", hd, strings.Join(sigs, ","), strings.Join(ss, ","), strings.Join(vs, ","))
+		}
+	}
 	for _, s := range outcomes {
 		for _, v := range vout {
 			for _, ext := range []string{"-", "01"} {
@@ -468,6 +491,13 @@ func genEcGrid(r *rng, n int, p func(string, ...any)) {
 		for _, a := range classes {
 			for _, b := range classes {
 				p("ecenc %s %s %s", cn, hexOf(a), hexOf(b))
+			}
+		}
+		// algorithm / curve mismatches through the crypto.Signer path: the width follows the key
+		for _, alg := range []int{-7, -35, -36} {
+			for _, a := range classes[:10] {
+				p("ecenc2 %d %s %s %s", alg, cn, hexOf(a), hexOf(classes[2]))
+				p("ecenc2 %d %s %s %s", alg, cn, hexOf(classes[1]), hexOf(a))
 			}
 		}
 		// verifier side: real signatures in every rendering
